@@ -108,6 +108,20 @@ package keeper
 //@   requires n >= 1
 //@   ensures keptOnMain(x, ptrs, shr, typ, o, n) == keptOnMain(x, ptrs, shr, typ, o, n - 1) + (typ[ptrs[o + n - 1]] == "MAIN" ? truncInt(x * shr[ptrs[o + n - 1]]) : 0)
 //@   prop C04
+//@ // what the first n named shares take off the inflow x: each exactly its truncated product (C04: every named destination gets
+//@ // exactly its configured fraction; the primary share gets exactly the rest)
+//@ spec func tsumShares(x int, ptrs [int]int, shr [int]int, o int, n int) int = n <= 0 ? 0 : tsumShares(x, ptrs, shr, o, n - 1) + truncInt(x * shr[ptrs[o + n - 1]])
+//@ lemma tsumStep(x int, ptrs [int]int, shr [int]int, o int, n int)
+//@   requires n >= 1
+//@   ensures tsumShares(x, ptrs, shr, o, n) == tsumShares(x, ptrs, shr, o, n - 1) + truncInt(x * shr[ptrs[o + n - 1]])
+//@   prop C04
+//@ lemma tsumLeWsum(x int, ptrs [int]int, shr [int]int, o int, n int)
+//@   induction n
+//@   requires x >= 0 && n >= 0 && sharesNonNeg(ptrs, shr, o, n)
+//@   uses truncBounds(x * shr[ptrs[o + n - 1]])
+//@   ensures 0 <= tsumShares(x, ptrs, shr, o, n) && tsumShares(x, ptrs, shr, o, n) * P <= wsumShares(x, ptrs, shr, o, n)
+//@   prop C04
+//@ pred tsumOf(x, dst, n) = tsumShares(x, elemRow(dst.Shares), heapOf("types.DestinationShare", "Share"), off(dst.Shares), n)
 //@ // no named share points to the main account: nothing is kept there
 //@ lemma keptOnMainZero(x int, ptrs [int]int, shr [int]int, typ [int]str, o int, n int)
 //@   induction n
@@ -127,7 +141,15 @@ package keeper
 
 //@ // One sub-distributor's step: every coin of the inflow is booked to exactly one state (books), is reported by exactly one
 //@ // event (events), and the burn event carries the truncated burn share of the inflow.
+//@ // truncation of a non-negative decimal: never negative, never more than the value (all this unit needs to know about it:
+//@ // the division stays uninterpreted there)
+//@ lemma truncBounds(y int)
+//@   requires y >= 0
+//@   ensures 0 <= truncInt(y) && truncInt(y) * P <= y
+//@   prop C04
 //@ func (k Keeper) StartDistributionProcess(ctx, states, coinsToDistributeDec, subDistributor) (localRemains, distributions, burn)
+//@   opaque truncP
+//@   uses forall y: int :: {truncInt(y)} truncBounds(y)
 //@   requires states != nil && off(*states) == 0 && statesHaveAccounts(*states) && destinationsValid(subDistributor.Destinations)
 //@   requires allPositive(coinsToDistributeDec) && remainsNonNeg(*states) && payoutOK(*states) && destinationAccountsOK(subDistributor.Destinations)
 //@   uses forall row: [int][str]int, pos: int, v: [str]int, d: str, n: int :: {sumRem(store(row, pos, v), d, n)} sumRemStore(row, d, n, pos, v)
@@ -153,10 +175,15 @@ package keeper
 //@   ensures [events] forall d: str :: subDistributor.Destinations.PrimaryShare.Type != "MAIN" ==>
 //@       sumDist(elemRow(distributions), heapOf("types.Distribution", "Amount"), d, len(distributions)) + (burn != nil ? burn.Amount[d] : 0)
 //@         + keptOf(coinsToDistributeDec[d], subDistributor.Destinations, len(subDistributor.Destinations.Shares)) == coinsToDistributeDec[d]
+//@   // C04: the primary share receives exactly the inflow minus every named share's truncated product minus the burn share's
+//@   ensures [primary-exact] subDistributor.Destinations.PrimaryShare.Type != "MAIN" ==> len(distributions) >= 1 && (forall d: str :: {coinsToDistributeDec[d]}
+//@       distributions[len(distributions) - 1].Amount[d] == coinsToDistributeDec[d]
+//@         - tsumOf(coinsToDistributeDec[d], subDistributor.Destinations, len(subDistributor.Destinations.Shares)) - truncInt(coinsToDistributeDec[d] * subDistributor.Destinations.BurnShare))
 //@   ensures [burn-amount] burn != nil ==> (forall d: str :: {burn.Amount[d]} burn.Amount[d] == truncInt(coinsToDistributeDec[d] * subDistributor.Destinations.BurnShare))
 //@   ensures [burn-reported] burn == nil ==> (forall d: str :: truncInt(coinsToDistributeDec[d] * subDistributor.Destinations.BurnShare) == 0)
 //@   prop C03 C04 C18 C01 C10
 //@ loop Keeper.StartDistributionProcess#1
+//@   uses forall y: int :: {truncInt(y)} truncBounds(y)
 //@   invariant arr(*localRemains) == old(arr(*states)) || freshSlice(*localRemains)
 //@   invariant localRemains != nil && off(*localRemains) == 0 && statesHaveAccounts(*localRemains) && len(*localRemains) >= old(len(*states))
 //@   invariant remainsNonNeg(*localRemains)
@@ -168,11 +195,16 @@ package keeper
 //@   invariant forall d: str :: sumDist(elemRow(distributions), heapOf("types.Distribution", "Amount"), d, len(distributions)) + defaultShare[d] + keptOf(coinsToDistributeDec[d], subDistributor.Destinations, \i) == coinsToDistributeDec[d]
 //@   invariant forall d: str :: {coinsToDistributeDec[d]} keptOf(coinsToDistributeDec[d], subDistributor.Destinations, \i) >= 0
 //@       && keptOf(coinsToDistributeDec[d], subDistributor.Destinations, \i) + defaultShare[d] <= coinsToDistributeDec[d]
+//@   invariant forall d: str :: {defaultShare[d]} defaultShare[d] == coinsToDistributeDec[d] - tsumOf(coinsToDistributeDec[d], subDistributor.Destinations, \i)
+//@   uses forall d: str :: {coinsToDistributeDec[d]} tsumStep(coinsToDistributeDec[d], elemRow(subDistributor.Destinations.Shares), heapOf("types.DestinationShare", "Share"), off(subDistributor.Destinations.Shares), \i + 1)
 //@   uses forall d: str :: {coinsToDistributeDec[d]} keptStepOf(coinsToDistributeDec[d], subDistributor.Destinations, \i + 1)
 //@   // what is left for the primary share is at least the inflow times (1 - sum of the shares handled so far): Sub never goes negative
-//@   invariant forall d: str :: {defaultShare[d]} defaultShare[d] * P + wsumOf(coinsToDistributeDec[d], subDistributor.Destinations, \i) >= coinsToDistributeDec[d] * P
+//@   // (defaultShare == inflow - truncated shares so far, and the truncated shares never exceed the weighted sum, which stays below the inflow)
+//@   uses sharesNonNegPrefix(elemRow(subDistributor.Destinations.Shares), heapOf("types.DestinationShare", "Share"), off(subDistributor.Destinations.Shares), \i + 1, len(subDistributor.Destinations.Shares))
+//@   uses sharesNonNegPrefix(elemRow(subDistributor.Destinations.Shares), heapOf("types.DestinationShare", "Share"), off(subDistributor.Destinations.Shares), \i, len(subDistributor.Destinations.Shares))
 //@   uses forall d: str :: {coinsToDistributeDec[d]} wsumBoundOf(coinsToDistributeDec[d], subDistributor.Destinations, \i + 1, 0)
-//@   uses forall d: str :: {coinsToDistributeDec[d]} wsumStep(coinsToDistributeDec[d], elemRow(subDistributor.Destinations.Shares), heapOf("types.DestinationShare", "Share"), off(subDistributor.Destinations.Shares), \i + 1)
+//@   uses forall d: str :: {coinsToDistributeDec[d]} tsumLeWsum(coinsToDistributeDec[d], elemRow(subDistributor.Destinations.Shares), heapOf("types.DestinationShare", "Share"), off(subDistributor.Destinations.Shares), \i + 1)
+//@   uses forall d: str :: {coinsToDistributeDec[d]} tsumLeWsum(coinsToDistributeDec[d], elemRow(subDistributor.Destinations.Shares), heapOf("types.DestinationShare", "Share"), off(subDistributor.Destinations.Shares), \i)
 
 //@ // ---- collecting a sub-distributor's inflow (C03 / C14): "unbooked" = what the main account holds beyond the recorded remains ----
 //@ pred remRow(s) = fieldRow(s, "Remains")
@@ -358,8 +390,19 @@ package keeper
 //@   requires n >= 0 && pos >= o + n
 //@   ensures sumLog(store(row, pos, v), o, d, n) == sumLog(row, o, d, n)
 //@   prop C03
+//@ // a state is paid out (or burned) in a block exactly when one of its first n listed coins has reached a whole unit
+//@ spec func anyWhole(c [str]int, n int) bool = n <= 0 ? false : (anyWhole(c, n - 1) || c[denomAt(c, n - 1)] >= P)
+//@ lemma anyWholeMono(c [str]int, i int, n int)
+//@   induction n
+//@   requires 0 <= i && i <= n && anyWhole(c, i)
+//@   ensures anyWhole(c, n)
+//@   prop C01
 //@ func checkIfAnyCoinIsGTE1(coins) (r)
-//@   prop C10
+//@   ensures [any-whole-coin] r == anyWhole(coins, len(coins))
+//@   prop C10 C01 C03 C14
+//@ loop checkIfAnyCoinIsGTE1#1
+//@   invariant 0 <= \i && \i <= len(coins) && !anyWhole(coins, \i)
+//@   uses anyWholeMono(coins, \i + 1, len(coins))
 //@ // The end-of-block payout: every state is written back exactly once, and what the main account holds beyond the written-back
 //@ // remains is what it held beyond the in-memory remains before (C03); a failed payout keeps its state in full (C14); the supply
 //@ // only ever drops (by burns).
